@@ -322,7 +322,7 @@ def main(tier, replay=None):
                 for post in POST[:2]:
                     words.append([("send",), ("send",)] + pre + [("cut",), x, ("send",), ("ack", "exact"), ("cut",), y] + post)
                     chains += 1
-    nrandom = (20000 if tier == "quick" else 1000000) // W
+    nrandom = (20000 if tier == "quick" else 300000) // W
     with ProcessPoolExecutor(max_workers=W) as pool:
         res = list(pool.map(worker, [(w, nrandom, words[w::W]) for w in range(W)]))
     stats = collections.Counter()
